@@ -474,7 +474,7 @@ package proxy
 //@   loop 3 invariant upstream != nil && hcOK(upstream)
 //@   loop 4 invariant 0 <= #i && #i <= len(to) && len(upstream.Hosts) == len(to) && upstream != nil && hcOK(upstream) && forall(k, 0, #i, createdAt(upstream.Hosts[k]) == optionsParsed && upstream.Hosts[k] != nil)
 
-//@ unit response_hop_headers frames=on props=C04 filter=`proxy\.ReverseProxy\)\.ServeHTTP$`
+//@ unit response_hop_headers frames=on props=C04,C05 filter=`proxy\.ReverseProxy\)\.ServeHTTP$`
 //@ func shallowCopyTrailers
 //@   modifies MV:map[string][]string, MD:map[string][]string
 //@   requires dstHeader != nil
@@ -519,6 +519,10 @@ package proxy
 //@   modifies MD:map[string][]string, MV:map[string][]string, URL.Scheme
 //@   may_panic
 //@   requires rp != nil && rp.dialer != nil && rp.FlushInterval >= 0 && rw != nil && outreq != nil && outreq.URL != nil && outreq.Header != nil
+//@   // C05 "a failed attempt leaves nothing behind": a reply with an unusable status (outside 100..999) is a failed attempt - it
+//@   // is turned into an error BEFORE anything of it is copied into the client's response header (the next backend's answer
+//@   // would otherwise go out with the failed one's fields)
+//@   at call copyHeader before [only_a_usable_reply_is_copied_to_the_client] 100 <= res.StatusCode && res.StatusCode <= 999
 //@   at call (net/http.Header).Del#2 before [headers_named_on_every_connection_line_are_gone] forall(a, 0, len(res.Header["Connection"]), forall(b, 0, ntok(res.Header["Connection"][a]), listed(res.Header["Connection"][a], b) ==> !has(res.Header, nm(res.Header["Connection"][a], b))))
 //@   // proof: #r1 is the list of Connection lines the outer loop ranges over (taken once); while the response still has a
 //@   // Connection entry it is that list (a line may name "Connection" itself, which removes the entry)
